@@ -259,3 +259,82 @@ func derivedFrom(f *Func, p types.Object) map[types.Object]bool {
 	})
 	return out
 }
+
+// MemoKeyMismatch is a set/memo map whose membership test and insertion use
+// different key expressions in the same function.
+type MemoKeyMismatch struct {
+	Map    types.Object
+	Lookup ast.Expr
+	Store  ast.Expr
+}
+
+// MemoKeyMismatches finds, in f, "seen"-style maps (value type struct{} or
+// bool) that are tested with a comma-ok lookup and filled by an indexed store
+// where no store key equals a lookup key.
+func MemoKeyMismatches(f *Func) []MemoKeyMismatch {
+	info := f.Pkg.TypesInfo
+	type use struct{ lookups, stores []ast.Expr }
+	uses := map[types.Object]*use{}
+	isSet := func(e ast.Expr) (types.Object, bool) {
+		o := ObjOf(info, e)
+		if o == nil {
+			return nil, false
+		}
+		m, ok := o.Type().Underlying().(*types.Map)
+		if !ok {
+			return nil, false
+		}
+		switch v := m.Elem().Underlying().(type) {
+		case *types.Struct:
+			return o, v.NumFields() == 0
+		case *types.Basic:
+			return o, v.Kind() == types.Bool
+		}
+		return nil, false
+	}
+	get := func(o types.Object) *use {
+		if uses[o] == nil {
+			uses[o] = &use{}
+		}
+		return uses[o]
+	}
+	ast.Inspect(f.Decl.Body, func(n ast.Node) bool {
+		as, ok := n.(*ast.AssignStmt)
+		if !ok {
+			return true
+		}
+		if len(as.Lhs) == 2 && len(as.Rhs) == 1 {
+			if ix, ok := Unparen(as.Rhs[0]).(*ast.IndexExpr); ok {
+				if o, ok := isSet(ix.X); ok {
+					get(o).lookups = append(get(o).lookups, ix.Index)
+				}
+			}
+		}
+		for _, l := range as.Lhs {
+			if ix, ok := Unparen(l).(*ast.IndexExpr); ok {
+				if o, ok := isSet(ix.X); ok {
+					get(o).stores = append(get(o).stores, ix.Index)
+				}
+			}
+		}
+		return true
+	})
+	var out []MemoKeyMismatch
+	for o, u := range uses {
+		if len(u.lookups) == 0 || len(u.stores) == 0 {
+			continue
+		}
+		for _, s := range u.stores {
+			match := false
+			for _, l := range u.lookups {
+				if SameExpr(info, s, l) {
+					match = true
+				}
+			}
+			if !match {
+				out = append(out, MemoKeyMismatch{Map: o, Lookup: u.lookups[0], Store: s})
+			}
+		}
+	}
+	return out
+}
